@@ -17,8 +17,8 @@ from vlib.core import Stage, fail
 ID = "C06"
 MANIFEST = {
     "category": "exploration",
-    "text": "Generated-input search: unconstrained expressions of the evaluation domain (about half invalid by injecting a neutral-only operand into an O/X over rc-carrying operands, or a bare hint/bare format-constraint pair, at any depth) are judged by the structural criterion computed on the generating AST. The tree evaluator must raise InvalidExpressionError under every one of the 3^m assignments (all when <= 243, else 60 sampled incl. the three constant ones) iff the criterion says invalid; wrapped into AHB expressions of 1-3 parts the same must hold for evaluate_ahb_expression_tree (3^m*2^n content evaluation results) and is_valid_expression must answer (False, reason) resp. (True, None) for the string and for the resolved tree. One slice is enumerated completely: every expression with up to 3 (thorough: 4) atoms over the keys [1], [2], [501], [901], [902] (3 023 / 122 780 expressions, more than half of them invalid) under all assignments. The AHB stage also evaluates through the shipped ContentEvaluationResult based evaluators with data that contain additional unused entries.",
-    "note": "Trusted: ref.validity (structural criterion) and the generator. Expressions whose validity would depend on the unspecified grouping inside an n-ary all-neutral O/X run are never generated. is_valid_expression is only given AHB expressions (with an indicator), as documented. Bounded: <= 10/16 atoms, m+n <= 5 for is_valid_expression. Process configuration by shard (vlib/sut.py; recorded in replay files): plain / parse caches preheated beyond their size / warnings attributed to ahbicht raised as errors / logging fully enabled with every record rendered; one event loop per process or a new one per call; five process time zones; the hash seed is the shard number; namesakes of ahbicht's marshmallow schema classes are registered.",
+    "text": "Generated-input search: unconstrained expressions of the evaluation domain (about half invalid by injecting a neutral-only operand into an O/X over rc-carrying operands, or a bare hint/bare format-constraint pair, at any depth) are judged by the structural criterion computed on the generating AST. The tree evaluator must raise InvalidExpressionError under every one of the 3^m assignments (all when <= 243, else 60 sampled incl. the three constant ones) iff the criterion says invalid; wrapped into AHB expressions of 1-3 parts the same must hold for evaluate_ahb_expression_tree (3^m*2^n content evaluation results) and is_valid_expression must answer (False, reason) resp. (True, None) for the string and for the resolved tree. One slice is enumerated completely: every expression with up to 3 (thorough: 4) atoms over the keys [1], [2], [501], [901], [902] (3 023 / 122 780 expressions, more than half of them invalid) under all assignments. The AHB stage also evaluates through the shipped ContentEvaluationResult based evaluators with data that contain additional unused entries. A sixth of the AHB cases combine two and-operands that each carry a requirement constraint and a bracketed group of two format constraints (the collected expression then nests brackets).",
+    "note": "Trusted: ref.validity (structural criterion) and the generator. Expressions whose validity would depend on the unspecified grouping inside an n-ary all-neutral O/X run are never generated. is_valid_expression is only given AHB expressions (with an indicator), as documented. Bounded: <= 10/16 atoms, m+n <= 5 for is_valid_expression. Process configuration by shard (vlib/sut.py; recorded in replay files): plain / parse caches preheated beyond their size / warnings attributed to ahbicht raised as errors / logging fully enabled with every record rendered; one event loop per process or a new one per call; five process time zones; the hash seed is the shard number; namesakes of ahbicht's marshmallow schema classes are registered. Every registry of evaluators / providers / resolvers that the harness builds (sut.configure) also holds one of each kind that names no EDIFACT format and no format version; these must never be asked.",
     "technique": "property-based testing against a structural reference predicate, with exhaustive assignment enumeration per expression",
 }
 LEVEL = "exploration"
@@ -237,10 +237,18 @@ def strategy_ahb(tier):
                 # two bracketed compositions of operands that each carry a format constraint: the collected expression
                 # then is a composition of two bracketed multi-key parts, "([901] U [902]) O ([903] U [901])"
                 def pair():
-                    return ["then", [["rc", draw(st.sampled_from(pools["rc"]))], ["fc", draw(st.sampled_from(pools["fc"]))]]]
+                    rc_atom = ["rc", draw(st.sampled_from(pools["rc"]))]
+                    if grouped:
+                        # ... or a requirement constraint and-ed with a bracketed group of format constraints: the
+                        # collected expression then nests brackets, "(([901] O [902])) X (([903] O [901]))"
+                        group = [draw(st.sampled_from(["or", "xor", "and"])), [["fc", draw(st.sampled_from(pools["fc"]))] for _ in range(2)]]
+                        return ["and", [rc_atom, group] if draw(st.booleans()) else [group, rc_atom]]
+                    return ["then", [rc_atom, ["fc", draw(st.sampled_from(pools["fc"]))]]]
+
+                grouped = draw(st.booleans())
 
                 kinds = [draw(st.sampled_from(["and", "or", "xor"])) for _ in range(3)]
-                ast = [kinds[0], [[kinds[1], [pair(), pair()]], [kinds[2], [pair(), pair()]]]]
+                ast = [kinds[0], [pair(), pair()]] if grouped else [kinds[0], [[kinds[1], [pair(), pair()]], [kinds[2], [pair(), pair()]]]]
                 cond = gen.render(draw, ast, redundant=False, top=False)
             elif has_cond:
                 if draw(st.sampled_from([True, True, False])):
